@@ -1,5 +1,7 @@
 import RsModel.Model.Tree
 import RsModel.Props.C01
+import RsModel.Lemmas.Replay
+import RsModel.Lemmas.PosTree
 /-!
 # C10 — CachedSource is transparent for every call history
 -/
@@ -54,5 +56,66 @@ theorem c10_stream_text_repeat (id : Nat) (s : Src) (c : Bool) (σ : Store) (h :
     evsText ((Src.cached id s).stream ⟨c, false⟩ ((Src.cached id s).stream ⟨c, false⟩ σ).2).1.evs
       = evsText ((Src.cached id s).stream ⟨c, false⟩ σ).1.evs := by
   rw [c10_stream_text id s c _ h, c10_stream_text id s c σ h]
+
+
+theorem get_insertNew_self (σ : Store) (k : Nat × Opts) (v : Option SMap) (h : σ.get? k = none) : (σ.insertNew k v).get? k = some v := by
+  unfold Store.insertNew
+  rw [h]
+  simp only [Option.isSome_none, Bool.false_eq_true, if_false]
+  unfold Store.get? at h ⊢
+  rw [List.find?_append]
+  have hf : List.find? (fun x => x.1 == k) σ = none := by simpa using h
+  simp [hf]
+
+/-- **the cache filled by streaming replays the same attribution** (columns = true).  Let `r` be what the wrapped source streams
+the first time (cold cache).  That call stores `get_map`'s result; every later stream of the wrapper replays `inner.src` through the
+map-driven splitter with the stored map (or as raw text when nothing was mapped).  The replay gives *every byte* the original
+location (source, line, column, name indices) the first stream gave it.
+
+The proof composes C02 (the first stream reports true positions), the bridge `attr_of_stream` (chunk attribution = lookup in the
+chunk mappings), C12 (`decode ∘ encode` keeps exactly what lookup sees) and C08 (the splitter attributes like a lookup).
+Hypotheses: the tree satisfies the domain of C02; mapped chunks carry text; mapping values are below `2^31`. -/
+theorem c10_replay_attribution (id : Nat) (inner : Src) (σ : Store)
+    (hw : inner.WF) (hp : inner.PosHyp true) (hn : inner.ids.Nodup) (hs : StoreHyp true σ inner.cachedNodes)
+    (ha : IsAscii inner.src) (hl : inner.src.length ≤ USIZE_MAX)
+    (hMN : MappedNE (inner.stream ⟨true, false⟩ σ).1.evs) (hsmall : ∀ m ∈ chunkMs (inner.stream ⟨true, false⟩ σ).1.evs, m.small)
+    (hcold : σ.get? (id, ⟨true, false⟩) = none) (hfresh : id ∉ inner.ids) :
+    let first := (Src.cached id inner).stream ⟨true, false⟩ σ
+    let second := (Src.cached id inner).stream ⟨true, false⟩ first.2
+    attrOf second.1.evs = attrOf first.1.evs ∧ evsText second.1.evs = evsText first.1.evs := by
+  intro first second
+  have hpos := Src.stream_posOK inner true σ hw hp hn hs
+  have htok := Src.stream_tok inner true σ
+  have htl := Src.stream_tl inner true σ
+  have htext := Src.stream_text inner true σ hw
+  -- what the first call returns and stores
+  have hfirst : first = ((inner.stream ⟨true, false⟩ σ).1,
+      (inner.stream ⟨true, false⟩ σ).2.insertNew (id, ⟨true, false⟩) (mapOfEvs true (inner.stream ⟨true, false⟩ σ).1.evs)) := by
+    show (Src.cached id inner).stream ⟨true, false⟩ σ = _
+    simp only [Src.stream, hcold]
+  have hstill : (inner.stream ⟨true, false⟩ σ).2.get? (id, ⟨true, false⟩) = none := by
+    rw [Src.stream_store_other inner _ σ (id, ⟨true, false⟩) hfresh]; exact hcold
+  have hget : first.2.get? (id, ⟨true, false⟩) = some (mapOfEvs true (inner.stream ⟨true, false⟩ σ).1.evs) := by
+    rw [hfirst]; exact get_insertNew_self _ _ _ hstill
+  have hsecond : second = (Src.cached id inner).stream ⟨true, false⟩ first.2 := rfl
+  rw [hsecond]
+  simp only [Src.stream, hget]
+  rw [hfirst]
+  simp only
+  cases hm : mapOfEvs true (inner.stream ⟨true, false⟩ σ).1.evs with
+  | none =>
+    simp only
+    have hnone := mapOfEvs_none _ hm
+    have := replay_none (inner.stream ⟨true, false⟩ σ).1 hpos htok htl hsmall hnone
+    rw [htext] at this
+    exact ⟨this, by rw [streamRaw_text, htext]⟩
+  | some sm =>
+    simp only
+    have hmm := mapOfEvs_mappings _ sm hm
+    have := replay_attr (inner.stream ⟨true, false⟩ σ).1 hpos htok htl hMN (by rw [htext]; exact ha) (by rw [htext]; exact hl) hsmall sm hmm
+    rw [htext] at this
+    refine ⟨by simpa [streamSM] using this, ?_⟩
+    rw [htext]
+    exact streamSM_text inner.src sm true (textOK_of_ascii _ ha hl)
 
 end Rs
